@@ -367,9 +367,15 @@ int __wrap_timerfd_settime(int fd, int fl, const struct itimerspec* n, struct it
   timer_next = now_ns + n->it_value.tv_sec * 1000000000ull + n->it_value.tv_nsec;
   return 0;
 }
+/* RLIMIT_NOFILE: hard limit 64 (the size of the kernel stub's descriptor table); the soft limit is 64 too unless
+ * the harness lowers it - an application may raise its soft limit up to the hard one at any time, so descriptors
+ * between the two are as valid as any */
+static int soft_fd_limit = KMAXFD;
+void simk_set_soft_fd_limit(int n) { soft_fd_limit = n < 8 ? 8 : n > KMAXFD ? KMAXFD : n; }
 int __wrap_getrlimit(int r, struct rlimit* l) {
   (void)r;
-  l->rlim_cur = l->rlim_max = KMAXFD;
+  l->rlim_cur = soft_fd_limit;
+  l->rlim_max = KMAXFD;
   return 0;
 }
 
@@ -794,8 +800,20 @@ int __wrap_getsockopt(int fd, int lvl, int opt, void* v, socklen_t* l) {
   errno = ENOPROTOOPT;
   return -1;
 }
+/* C09: "other fibers on the same kernel thread keep running while it sleeps". The real sleep calls block the
+ * whole kernel thread; under the fiber runtime they are only legitimate on a thread that the application has
+ * locked with fiber_io_lock_thread() (the harness reports that), or during shutdown (never simulated) */
+static int thread_locked_note[MAXT];
+void simk_thread_locked(int on) {
+  if (me >= 0) thread_locked_note[me] = on;
+}
+static void real_sleep_check(const char* what) {
+  if (fiber_mode && me >= 0 && !thread_locked_note[me])
+    sim_violation("C09-kernel-thread-blocked", "%s reached the real (thread-blocking) call on kernel thread %d, which is not locked: every fiber of that thread stops for the duration", what, me);
+}
 static int k_usleep(unsigned us) {
   if (!sim_active || me < 0) return 0;
+  real_sleep_check("usleep/sleep");
   T[me].st = ST_SLEEP;
   T[me].deadline = now_ns + (uint64_t)us * 1000;
   block_me();
@@ -809,6 +827,7 @@ static unsigned k_sleep(unsigned s) {
 static int k_nanosleep(const struct timespec* rq, struct timespec* rm) {
   if (rm) memset(rm, 0, sizeof *rm);
   if (!sim_active || me < 0) return 0;
+  real_sleep_check("nanosleep");
   T[me].st = ST_SLEEP;
   T[me].deadline = now_ns + (uint64_t)rq->tv_sec * 1000000000ull + rq->tv_nsec;
   block_me();
